@@ -74,6 +74,17 @@ fn roundtrip(rep: &mut Report, thorough: bool, shard: u32, nshards: u32) {
             }
         }
     }
+    if shard == 0 {
+        // Strings are written as their UTF-8 bytes (parse() is a stub: no
+        // round trip to make).
+        for st in ["", "plain", "Hej p\u{e5} dig", "\u{20ac}", "\u{fffd}x", "a\nb", "\u{1f4e1} 73"] {
+            n += 1;
+            let got = st.to_string().serialize();
+            if got != st.as_bytes() {
+                viol(rep, "Sample<String>", "serialize", format!("{st:?} serialises to {got:02x?}, its UTF-8 bytes are {:02x?}", st.as_bytes()), json!({"type":"String","value":st}));
+            }
+        }
+    }
     for bits in u32_patterns(thorough, shard, nshards) {
         n += 3;
         let b = bits.serialize();
